@@ -210,6 +210,8 @@ def run_shard(spec, tier, seed, budget_s):
             props = rng.random() < 0.3
             doc = gen.random_doc(rng, size, 'plain', props=props, ml_small_notes=ml)
             suite = 'random.mlnote' if ml else 'random'
+            if not ml and rng.random() < 0.2 and gen.same_bare_names(doc, rng):
+                suite = 'random.samebare'
             text = surface.render(doc, f'{seed}-{i}-{k}')
             db, err = parse(text, allow_properties=props)
             if err is None:
